@@ -48,6 +48,11 @@ impl InferShapes for ConstantOfShape {
                     SymTensor::from_scalar(SymExpr::Value(val))
                 }
             } else {
+                // A negative size is invalid. Reject it here rather than
+                // producing a shape with a negative dimension.
+                if values.iter().any(|v| matches!(v, SymExpr::Value(v) if *v < 0)) {
+                    return Err(InferShapesError::InvalidValue);
+                }
                 SymTensor::from_shape(values.to_vec())
             }
         } else if let Some(mut dims) = shape.shape()
